@@ -118,6 +118,8 @@ def run_func(c):
         ck_g, _ = spec(cls, idx("geo", i))
         p, _ = pose(idx("pos", i))
         _, r = pose(idx("ori", i))
+        if c.get("ori_none"):
+            r = R.identity()
         o = observer(idx("obs", i))
         if c.get("inside"):  # an observer inside the body that instance i is built from
             o = p + r.apply(inside_local(cls, idx("geo", i)))
@@ -152,7 +154,7 @@ def run_func(c):
     elif gname is not None:
         fkw[gname] = arg("geo")
     fkw["position"] = arg("pos")
-    fkw["orientation"] = R.from_quat(arg("ori"))
+    fkw["orientation"] = R.from_quat(arg("ori")) if not c.get("ori_none") else None    # None: the documented unit rotation
     obs = arg("obs")
     if c.get("aslist"):
         fkw = {k: (v.tolist() if isinstance(v, np.ndarray) else v) for k, v in fkw.items()}
@@ -685,6 +687,8 @@ def enumerate_cases(tier, seed=0):
                     cases.append({"part": "func", "cls": cls, "n": n, "per": per, "field": field})
             cases.append({"part": "func", "cls": cls, "n": n, "per": PARTS if cls != "Dipole" else ["exc", "pos", "ori", "obs"],
                           "field": "B", "aslist": True})
+            cases.append({"part": "func", "cls": cls, "n": n, "per": [x for x in PARTS if x != "ori" and not (cls == "Dipole" and x == "geo")],
+                          "field": "H", "ori_none": True})
     for cls in ("CylinderSegmentMixed", "TriangularMeshRagged"):
         for n in (2, 3, 4, 5):
             for per in subsets:
